@@ -3,6 +3,7 @@ import Verif.Model.KeyToLabel
 import Verif.Model.Rfc3339
 import Verif.Model.Frames
 import Verif.Model.Docker
+import Verif.Model.Merge
 import Verif.Driver.Codec
 /-! Line-protocol driver: one request per line on stdin, one reply per line on stdout.
 Core-only (no Mathlib), compiled as `lean_exe driver`. -/
@@ -48,6 +49,13 @@ def handle (req : Sexp) : Sexp :=
     let cs := Docker.select Regex.fullMatch (inv.items.map decodeContainer) (sel.items.map decodeMatcher)
     let w := Docker.logsWindow (inst.toNat == 1) st.toInt en.toInt
     .list [.list (cs.map fun c => .list [ofBytes c.id, Codec.labelsOut (Docker.getLabels c)]), ofInt w.since, ofInt w.until_]
+  | some "isrun", [srcs, out] =>
+    let srcs' : List (List Merge.Rec) := (srcs.items.zipIdx).map fun (s, i) =>
+      (s.items.zipIdx).map fun (t, j) => ⟨t.toNat, i, j⟩
+    let out' : List Merge.Rec := out.items.map fun r => match r.items with
+      | [t, s, j] => ⟨t.toNat, s.toNat, j.toNat⟩
+      | _ => ⟨0, 0, 0⟩
+    if Merge.isRun srcs' out' then sym "ok" else .list [sym "bad"]
   | _, _ => .list [sym "bad-op"]
 
 partial def loop (h : IO.FS.Stream) (out : IO.FS.Stream) : IO Unit := do
